@@ -115,10 +115,10 @@ func (p *Program) toolAlphabet() []rune {
 }
 
 func (p *Program) toolBounded(opts checkOpts) (*Obligation, *boundedStats) {
-	stats := &boundedStats{Bound: "quick: 20 tool runs x 10 targets; thorough: 500 runs x 10 targets; files of 0..4096 words over letters/combining marks, with/without trailing newline, blank lines at start/middle/end", Families: []string{
+	stats := &boundedStats{Bound: "quick: 20 tool runs x 10 targets; thorough: 500 runs x 10 targets; files of 0..8192 words over letters/combining marks, with/without trailing newline, blank lines at start/middle/end", Families: []string{
 		"the ten reference lists (must reproduce the committed lists exactly)",
 		"reference lists without trailing newline / with blank lines inserted",
-		"0, 1, 2048, 4096 words",
+		"0, 1, 2048, 4096, 8192 words (the largest well over 64 KiB)",
 		"random words over every letter and combining mark occurring in any list plus L*/M* representatives of Latin, Han, Hiragana, Katakana, Hangul",
 	}}
 	fail := func(f string, a ...interface{}) (*Obligation, *boundedStats) {
@@ -196,6 +196,10 @@ func (p *Program) toolBounded(opts checkOpts) (*Obligation, *boundedStats) {
 		wd, _ := os.MkdirTemp(tmp, "run-")
 		defer os.RemoveAll(wd)
 		_ = os.MkdirAll(filepath.Join(wd, "internal", "wordlist"), 0o755)
+		// an older, longer generation is already there: the tool must replace it
+		for stem := range inputs {
+			_ = os.WriteFile(filepath.Join(wd, "internal", "wordlist", stem+".go"), bytes.Repeat([]byte("// stale line of an earlier run\n"), 8000), 0o644)
+		}
 		ctx, cancel := context.WithTimeout(context.Background(), 60*time.Second)
 		defer cancel()
 		c := exec.CommandContext(ctx, bin)
@@ -252,7 +256,7 @@ func (p *Program) toolBounded(opts checkOpts) (*Obligation, *boundedStats) {
 				}
 				words = append([]string{"", ""}, append(words, "", "")...)
 			case run == 3:
-				for i := 0; i < 4096; i++ {
+				for i := 0; i < 8192; i++ {
 					words = append(words, randWord())
 				}
 			case run == 4:
